@@ -8,11 +8,12 @@ matches_known = default_matches_known
 OPS = ["laplacian", "divergence", "vector_laplacian", "advection"]
 
 
-def call_op(op, has_t, d, polys, pt, nus):
+def call_op(op, has_t, d, polys, pt, nus, extra=None):
     jax, jnp, np, eqx, jinns = jx()
     from jinns.parameters import Params, ParamsDict
     eq_type = "nonstatio_PDE" if has_t else "statio_PDE"
-    u = mk(polys, eq_type)
+    # the scalar Laplacian is that of the FIRST output: further outputs of the network (extra) are ignored
+    u = mk(polys + ([extra] if (extra and op == "laplacian") else []), eq_type)
     eqp = {f"junk{k}": jnp.array(float(v)) for k, v in enumerate(nus)}
     P = Params(nn_params=u.init_params(), eq_params=eqp)
     t = jnp.array([float(pt[0])]) if has_t else None
@@ -81,6 +82,8 @@ def gen_cfgs(tier, rng):
             polys = [{es: v * s for es, v in p.items()} for p in polys]
         pt = [rng.randint(-6, 6) / rng.choice([1, 2, 4]) for _ in range(nv)]
         out.append(dict(op=op, has_t=has_t, d=d, polys=polys, pt=pt))
+        if op == "laplacian" and rng.random() < 0.4:
+            out[-1]["extra"] = prand(rng, nv, 3, 3) or {(0,) * nv: 2}
     for c in out:
         c["nus"] = [rng.randint(-5, 5) for _ in range(rng.randint(0, 2))]
     return out
@@ -147,7 +150,7 @@ def generate(tier, seed, casedir, variant):
     for cid, c in enumerate(gen_cfgs(tier, rng)):
         relax()
         try:
-            obs = call_op(c["op"], c["has_t"], c["d"], c["polys"], c["pt"], c["nus"])
+            obs = call_op(c["op"], c["has_t"], c["d"], c["polys"], c["pt"], c["nus"], c.get("extra"))
         except Exception as ex:
             viol.append({"detail": f"operator raised {type(ex).__name__}: {str(ex)[:200]}", "case": jsonable(c)})
             continue
@@ -190,11 +193,17 @@ def generate(tier, seed, casedir, variant):
 
 
 def jsonable(c):
-    return dict(c, polys=[[[list(k), v] for k, v in sorted(p.items())] for p in c["polys"]])
+    out = dict(c, polys=[[[list(k), v] for k, v in sorted(p.items())] for p in c["polys"]])
+    if c.get("extra"):
+        out["extra"] = [[list(k), v] for k, v in sorted(c["extra"].items())]
+    return out
 
 
 def unjson(c):
-    return dict(c, polys=[{tuple(k): v for k, v in p} for p in c["polys"]])
+    out = dict(c, polys=[{tuple(k): v for k, v in p} for p in c["polys"]])
+    if c.get("extra"):
+        out["extra"] = {tuple(k): v for k, v in c["extra"]}
+    return out
 
 
 def replay(rep, casedir, variant):
@@ -204,7 +213,7 @@ def replay(rep, casedir, variant):
     if c.get("what") in ("vector operator", "forward operator"):       # separable-network cases are regenerated from the seed of the run
         return generate("quick", rep.get("seed", 0), casedir, variant)
     c = unjson(c)
-    obs = call_op(c["op"], c["has_t"], c["d"], c["polys"], c["pt"], c["nus"])
+    obs = call_op(c["op"], c["has_t"], c["d"], c["polys"], c["pt"], c["nus"], c.get("extra"))
     exp = expected(c["op"], c["has_t"], c["d"], c["polys"], c["pt"])
     viol = [] if [float(e) for e in exp] == obs else [{"detail": f"{c['op']} returned {obs}, hand differentiation gives {exp}", "case": jsonable(c)}]
     write_cases(casedir, "C01", "R_C01", variant, [case_term(0, c, obs)])
